@@ -38,7 +38,7 @@ RULE = ("each run draws a body length (dense around 0, 1, 2^14+-2, 2^15, 2^16+-2
         "sizes and ciphertext cuts, and serves it over BOTH TLS backends. distinct = distinct "
         "(length, reader, buffer, cut-signature); non-trivial = body >= 1 byte and the reader or "
         "the network was not the default")
-PROBES = ["request_in_two_records_with_the_handshake", "stray_bytes_while_handler_pending", "handler_finishes_after_request_timeout", "file_with_byte_order_mark", "status_21_to_29", "backpressure_pause_writing", "body_ge_16k", "body_ge_64k", "body_ge_6MiB", "half_closing_reader", "nauyaca_client_as_reader", "slow_reader", "bursty_reader",
+PROBES = ["client_resumes_tls_session", "tls_session_actually_resumed", "request_in_two_records_with_the_handshake", "stray_bytes_while_handler_pending", "handler_finishes_after_request_timeout", "file_with_byte_order_mark", "status_21_to_29", "backpressure_pause_writing", "body_ge_16k", "body_ge_64k", "body_ge_6MiB", "half_closing_reader", "nauyaca_client_as_reader", "slow_reader", "bursty_reader",
           "ciphertext_cut", "static_file", "start_server", "very_slow_reader_over_30s"]
 COMPONENTS = {
     "real": ["nauyaca.server.protocol._send_response", "nauyaca.server.tls_protocol (TLS pump)",
@@ -79,6 +79,15 @@ def make_body(ch, n):
 
 
 def serve_once(ch, backend, cfg, scratch):
+    from sim import world as _world
+    _world.TICKETS["allow"] = bool(cfg.get("resume"))
+    try:
+        return _serve_once(ch, backend, cfg, scratch)
+    finally:
+        _world.TICKETS["allow"] = False
+
+
+def _serve_once(ch, backend, cfg, scratch):
     from nauyaca.protocol.response import GeminiResponse
     sim = Sim(ch)
     net = sim.net
@@ -156,6 +165,20 @@ def serve_once(ch, backend, cfg, scratch):
             if srv_task is not None:
                 srv_task.cancel()
             return
+        session = None
+        if cfg.get("resume"):
+            # an earlier, ordinary connection of the same client; the judged connection then
+            # offers that TLS session for resumption
+            ep0 = raw_connect(net, HOST, 1965, c2s=WholePolicy(0.001), s2c=WholePolicy(0.001))
+            peer0 = RawPeer(net, ep0, [("send", url.encode() + b"\r\n")], tls_ctx=fx.client_ctx(),
+                            name="earlier")
+            for _ in range(400):
+                await asyncio.sleep(0.25)
+                if peer0.eof_seen():
+                    break
+            peer0.drain_final()
+            session = peer0.eng.obj.session if peer0.eng and peer0.eng.hs_done else None
+            out["first_rx_len"] = len(peer0.rx_plain)
         pol = DrawnPolicy(ch, "s2c", cfg["s2c_mode"], latency=0.001,
                           delays=[0.001, 0.0, 0.003], max_cuts=3)
         ep = raw_connect(net, HOST, 1965, c2s=WholePolicy(0.001), s2c=pol,
@@ -178,7 +201,7 @@ def serve_once(ch, backend, cfg, scratch):
             # then only reads
             pscript.append(("close",))
         peer = RawPeer(net, ep, pscript, tls_ctx=fx.client_ctx(), name="reader",
-                       coalesce_first=bool(cfg.get("split_request")), **kw)
+                       coalesce_first=bool(cfg.get("split_request")), tls_session=session, **kw)
         t_end = cfg["deadline"]
         while net.now < t_end:
             await asyncio.sleep(0.25)
@@ -187,6 +210,8 @@ def serve_once(ch, backend, cfg, scratch):
         await asyncio.sleep(0.5)
         peer.drain_final()
         out["peer"] = peer
+        out["resumed"] = bool(session is not None and peer.eng and peer.eng.hs_done
+                              and peer.eng.obj.session_reused)
         out["s2c_deliveries"] = ep.rxp.deliveries
         if server is not None:
             server.close()
@@ -200,13 +225,24 @@ def serve_once(ch, backend, cfg, scratch):
         raise RuntimeError(f"C06 world ended with status {status}")
     if cfg["reader"] == "client":
         return {"rx": out.get("client_rx", b""), "eof": True, "resp": captured.get("resp"),
-                "tls_error": out.get("client_err"), "now": net.now, "sig": sim.signature(),
+                "tls_error": out.get("client_err"), "now": net.now, "sig": (sim.signature() if not cfg.get("resume") else "resume"),
                 "digest": sim.digest(), "deliveries": 0, "exc": sim.loop.exceptions[:3]}
     peer = out["peer"]
-    return {"rx": bytes(peer.rx_plain), "eof": peer.eof_seen(), "resp": captured.get("resp"),
-            "tls_error": peer.tls_error, "now": net.now, "sig": sim.signature(),
-            "digest": sim.digest(), "deliveries": out["s2c_deliveries"],
+    return {"resumed": out.get("resumed"), "rx": bytes(peer.rx_plain), "eof": peer.eof_seen(), "resp": captured.get("resp"),
+            "tls_error": peer.tls_error, "now": net.now, "sig": (sim.signature() if not cfg.get("resume") else "resume"),
+            "digest": (sim.digest() if not cfg.get("resume") else _coarse(peer)), "deliveries": out["s2c_deliveries"],
             "exc": sim.loop.exceptions[:3]}
+
+
+def _coarse(peer):
+    """Digest for runs with session tickets switched on: ticket lengths (and with them
+    every byte offset, cut position and reader schedule) are OpenSSL's randomness, so only
+    what the client got is a function of the tape."""
+    return hashlib.sha256(bytes(peer.rx_plain) + (b"E" if peer.eof_seen() else b"-")).hexdigest()[:16]
+
+
+def hdelay_ok(cfg):
+    return True
 
 
 def run_one(ch):
@@ -273,6 +309,12 @@ def run_one(ch):
     # sends its request to a 4 s handler: the complete request is still answered with the body
     cfg["hdelay"] = 0.01
     cfg["idle_before_request"] = 0.0
+    if reader != "client" and n <= 300000 and hdelay_ok(cfg) and ch.chance("resume", 0.12):
+        # second connection of a client that resumes its TLS session
+        cfg["resume"] = True
+        cfg["s2c_mode"] = 0       # no size-dependent draws: ticket lengths are not a function of the tape
+        cfg["deadline"] += 100.0
+        res.stats["client_resumes_tls_session"] += 1
     if reader != "client" and ch.chance("split_request", 0.15):
         # URL and CRLF as two TLS records in the flight of the client's Finished
         cfg["split_request"] = True
@@ -354,6 +396,8 @@ def run_one(ch):
         res.stats["ciphertext_cut"] += 1
     if cfg["status"] != 20:
         res.stats["status_21_to_29"] += 1
+    if any(o.get("resumed") for o in outs.values()):
+        res.stats["tls_session_actually_resumed"] += 1
     if source == "static":
         res.stats["static_file"] += 1
     if source == "start_server":
